@@ -460,7 +460,7 @@ var cpNamePool = []string{"alpha", "b2", "cpu10", "cpu9", "Zed", "m_1", "core", 
 
 func genBasm(t *rapid.T) BasmCase {
 	var c BasmCase
-	rsize := rapid.SampledFrom([]int{8, 8, 8, 16, 32}).Draw(t, "rsize")
+	rsize := rapid.SampledFrom([]int{8, 8, 8, 16, 32, 12, 24, 64}).Draw(t, "rsize")
 	c.Cfg = rapid.SampledFrom([]string{cfgNoDyn, cfgNoDyn, cfgDefault, cfgMinWord, cfgMinSame}).Draw(t, "cfg")
 	movLit := c.Cfg != cfgDefault // default switches refuse mov rX, <literal> ("a criteria is needed")
 	nCP := rapid.SampledFrom([]int{1, 1, 1, 2, 2, 3}).Draw(t, "ncps")
